@@ -64,11 +64,13 @@ type State struct {
 	instd    map[string]bool
 	closures map[string]*closureInfo
 	held     map[string]bool // locks held: address term of mutex
+	heldW    map[string]bool // ... held exclusively
 	trace    []string
 	ghostInt map[string]Term // per-path ghost counters (e.g. sends per stream)
 	panicked bool
 	pendingAlloc string // alloc counter that bounds references in heap versions being created
 	loopSnaps map[*ssa.BasicBlock]*snapshot // heap at the first arrival at each loop head (atloop(...))
+	iterSnaps map[*ssa.BasicBlock]*snapshot // heap at the start of the symbolic iteration (atiter(...))
 }
 
 func (st *State) fork() *State {
@@ -94,6 +96,10 @@ func (st *State) fork() *State {
 	for k, v := range st.held {
 		n.held[k] = v
 	}
+	n.heldW = make(map[string]bool, len(st.heldW))
+	for k, v := range st.heldW {
+		n.heldW[k] = v
+	}
 	n.ghostInt = make(map[string]Term, len(st.ghostInt))
 	for k, v := range st.ghostInt {
 		n.ghostInt[k] = v
@@ -104,6 +110,12 @@ func (st *State) fork() *State {
 		n.loopSnaps = make(map[*ssa.BasicBlock]*snapshot, len(st.loopSnaps))
 		for k, v := range st.loopSnaps {
 			n.loopSnaps[k] = v
+		}
+	}
+	if st.iterSnaps != nil {
+		n.iterSnaps = make(map[*ssa.BasicBlock]*snapshot, len(st.iterSnaps))
+		for k, v := range st.iterSnaps {
+			n.iterSnaps[k] = v
 		}
 	}
 	return n
@@ -328,6 +340,12 @@ func (st *State) wfLeaf(l Leaf, v Term, alloc Term) Term {
 	switch l.Kind {
 	case LkRef, LkPayload, LkSlArr:
 		base := tAnd("(>= "+tRid(v)+" 0)", "(<= "+tRid(v)+" "+alloc+")", tImp(tIsNil(v), tEq(v, rnil)))
+		if ct, ok := l.T.Underlying().(*types.Chan); ok && l.Kind == LkRef {
+			// channels of different element types are different objects
+			st.x.d.DeclareFun("roottype", []string{"Int"}, "Int")
+			id := st.x.prog.typeID(types.NewChan(types.SendRecv, ct.Elem()))
+			base = tAnd(base, tOr(tIsNil(v), fmt.Sprintf("(= (roottype %s) %d)", tRid(v), 100000+id)))
+		}
 		if pt, ok := l.T.Underlying().(*types.Pointer); ok && l.Kind == LkRef {
 			// Go's type safety: a *T points into an allocation whose root type contains a T
 			st.x.d.DeclareFun("roottype", []string{"Int"}, "Int")
@@ -422,8 +440,7 @@ func (st *State) memberAxiom(ei elemRef, v Val) {
 		if len(alts) == 0 {
 			return
 		}
-		boxed := st.loadIn(nil, "String", v.L[1])
-		st.assume(tImp(tAnd(inRange, tOr(alts...)), tSel(st.elemsOf(ei.sl), boxed)))
+		st.assume(tImp(tAnd(inRange, tOr(alts...)), tSel(st.elemsOf(ei.sl), unboxString(v.L[1]))))
 	}
 }
 
